@@ -547,6 +547,42 @@ def run(ctx):
                        'separator only (`{a},{b}`) is kept whole and the list is not split there, while regular-expression '
                        'and callable separators still split' % (' & '.join(bad_.cond_src())[-140:] if bad_ else ''),
                        construct='split_at_chars: scan')
+    # ---- R18r: one separator closes one part
+    ctx.rule('R18r', 'split_at_chars: on every path through one turn of the scanning loop a separator closes at most one part '
+                     '(one flush), and with keep_empty exactly one: a separator never produces an extra empty part in front of '
+                     'the part it closes', 1)
+    wl_ = [w_ for w_ in iter_own(sac) if isinstance(w_, ast.While) and any(
+        isinstance(x_, ast.Call) and call_name(x_) == 'get_next_split' for x_ in ast.walk(w_))]
+    if len(wl_) != 1:
+        ctx.unknown('R18r', m, sac, 'scanning loop of split_at_chars not found', construct='split_at_chars: parts per separator')
+    else:
+        try:
+            fcs = symex.Walker(want_exits=True, trace=True, is_sink=lambda c_: call_name(c_) == 'flush_nodes'
+                               ).run_block(wl_[0].body)
+        except symex.TooManyPaths:
+            fcs = None
+        if fcs is None:
+            ctx.unknown('R18r', m, wl_[0], 'too many paths', construct='split_at_chars: parts per separator')
+        else:
+            badf, n_sep = None, 0
+            for cs in fcs:
+                if cs.kind not in ('end', 'continue', 'break'):
+                    continue
+                atoms = {(unparse(a_), ap_) for t_, p_ in cs.conds for a_, ap_ in symex._atoms(t_, p_)}
+                found = any(('!= -1' in t_ and ap_) or ('== -1' in t_ and not ap_) for t_, ap_ in atoms)
+                if not found:
+                    continue
+                n_sep += 1
+                nfl = len([1 for nd_, sub_ in cs.env.get('#trace', ()) if call_name(sub_) == 'flush_nodes'])
+                keep = ('keep_empty', True) in atoms
+                if (nfl > 1 or (keep and nfl != 1)) and badf is None:
+                    badf = (cs, nfl)
+            ctx.decide('R18r', badf is None and n_sep > 0, m, badf[0].node if badf and badf[0].node is not None else wl_[0],
+                       '%d separator path(s): at most one part closed per separator, exactly one with keep_empty' % n_sep,
+                       'split_at_chars closes %d parts for one separator on the path [%s]: with keep_empty an empty part is '
+                       'emitted in front of the pending nodes (`{x},b` gives \'\', {x}, b), so the parts no longer correspond '
+                       'to the separators' % (badf[1] if badf else 0, ' & '.join(badf[0].cond_src())[-160:] if badf else ''),
+                       construct='split_at_chars: parts per separator')
     # ---- R18p: every key=value part reaches the repeated-key policy
     ctx.rule('R18p', 'parse_keyval_content: the only part that is skipped is an empty one; every other part -- also a bare key '
                      'seen before -- reaches the code that applies the repeated-key policy', 1)
